@@ -464,6 +464,158 @@ fn check_plug(c: &PlugCase, obs: &mut Obs) -> Result<(), String> {
 }
 
 // ------------------------------------------------------------------------------------------
+// wide diagrams: a tensor product of many small components, so that the maps stay computable
+// component by component while wire counts, list lengths and vertex names grow large
+
+#[derive(Clone, Debug, Serialize, Deserialize)]
+pub struct WideCase {
+    pub comps: Vec<(DiagSpec, DiagSpec)>,
+    pub ins: Vec<u8>,
+    pub outs: Vec<u8>,
+    pub drop_in: u8,
+    pub drop_out: u8,
+    /// 0 = the product itself, 1 = plugged into a second product, 2 = its adjoint
+    pub mode: u8,
+}
+
+fn widen<G: GraphLike>(ds: &[Diag], plans: &[&IdPlan], what: &str) -> Result<G, String> {
+    let (mut g, _) = build::<G>(&ds[0], plans[0]);
+    for (d, plan) in ds.iter().zip(plans.iter()).skip(1) {
+        let (h, _) = build::<G>(d, plan);
+        let vmap = guarded(&format!("{what}: append_graph"), || g.append_graph(&h))?;
+        let mut ins = g.inputs().clone();
+        let mut outs = g.outputs().clone();
+        for i in h.inputs() {
+            ins.push(*vmap.get(i).ok_or_else(|| format!("{what}: append_graph map lacks input {i}"))?);
+        }
+        for o in h.outputs() {
+            outs.push(*vmap.get(o).ok_or_else(|| format!("{what}: append_graph map lacks output {o}"))?);
+        }
+        g.set_inputs(ins);
+        g.set_outputs(outs);
+    }
+    Ok(g)
+}
+
+/// decode a list of basis codes for `n` wires leaving at most `budget` wires open
+fn wide_list(codes: &[u8], n: usize, drop: u8, budget: usize) -> Vec<BasisElem> {
+    let drop = (drop as usize).min(budget).min(n);
+    let mut open = drop;
+    (0..n - drop)
+        .map(|i| {
+            let b = basis(codes.get(i % codes.len().max(1)).copied().unwrap_or(0).wrapping_add((i / codes.len().max(1)) as u8));
+            if b == BasisElem::SKIP {
+                if open >= budget {
+                    return BasisElem::Z0;
+                }
+                open += 1;
+            }
+            b
+        })
+        .collect()
+}
+
+fn check_wide_in<R: Cmp, G: GraphLike>(c: &WideCase, name: &str, obs: &mut Obs) -> Result<(), String> {
+    let mode = c.mode % 3;
+    let mut dgs = vec![];
+    let mut dhs = vec![];
+    let mut ts: Vec<Tens<R>> = vec![];
+    for (sg, sh) in &c.comps {
+        let dg = sg.to_diag();
+        let mut dh = sh.to_diag();
+        make_composable(&dg, &mut dh);
+        let Ok(tg) = eval::<R>(&dg) else {
+            obs.skip("oracle");
+            return Ok(());
+        };
+        let t = match mode {
+            1 => {
+                let Ok(th) = eval::<R>(&dh) else {
+                    obs.skip("oracle");
+                    return Ok(());
+                };
+                compose(&tg, &th)
+            }
+            2 => dagger(&tg),
+            _ => tg,
+        };
+        ts.push(t);
+        dgs.push(dg);
+        dhs.push(dh);
+    }
+    if ts.is_empty() {
+        return Ok(());
+    }
+    let pg: Vec<&IdPlan> = c.comps.iter().map(|(g, _)| &g.plan).collect();
+    let ph: Vec<&IdPlan> = c.comps.iter().map(|(_, h)| &h.plan).collect();
+    let what = format!("{name}: product of {} components, mode {mode}", ts.len());
+    let mut p: G = widen(&dgs, &pg, &what)?;
+    match mode {
+        1 => {
+            let h: G = widen(&dhs, &ph, &what)?;
+            guarded(&format!("{what}: plug"), || p.plug(&h))?;
+        }
+        2 => {
+            p = guarded(&format!("{what}: to_adjoint"), || p.to_adjoint())?;
+        }
+        _ => {}
+    }
+    let ni: usize = ts.iter().map(|t| t.n_in).sum();
+    let no: usize = ts.iter().map(|t| t.n_out).sum();
+    if p.inputs().len() != ni || p.outputs().len() != no {
+        return Err(format!("{what}: {}->{} wires, expected {ni}->{no}", p.inputs().len(), p.outputs().len()));
+    }
+    obs.class_if(ni.max(no) >= 16, "wires>=16");
+    obs.class_if(ni.max(no) >= 33, "wires>=33");
+    obs.class_if(ni + no >= 64, "total-wires>=64");
+    obs.class_if(p.vertices().max().unwrap_or(0) >= 256, "names>=256");
+    obs.nontrivial();
+    let lin = wide_list(&c.ins, ni, c.drop_in, 4);
+    let lout = wide_list(&c.outs, no, c.drop_out, 4);
+    guarded(&format!("{what}: plug_inputs (list of {} for {ni} wires)", lin.len()), || p.plug_inputs(&lin))?;
+    guarded(&format!("{what}: plug_outputs (list of {} for {no} wires)", lout.len()), || p.plug_outputs(&lout))?;
+    // expected: component by component
+    let (mut ai, mut ao) = (0usize, 0usize);
+    let mut want: Option<Tens<R>> = None;
+    for t in &ts {
+        let sub_in: Vec<BasisElem> = (ai..ai + t.n_in).filter_map(|i| lin.get(i).copied()).collect();
+        let sub_out: Vec<BasisElem> = (ao..ao + t.n_out).filter_map(|i| lout.get(i).copied()).collect();
+        ai += t.n_in;
+        ao += t.n_out;
+        let q = plug_tensor(&plug_tensor(t, &sub_in, true), &sub_out, false);
+        want = Some(match want {
+            None => q,
+            Some(w) => tensor_product(&w, &q),
+        });
+    }
+    let want = want.unwrap();
+    match eval_graph::<R, G>(&p) {
+        Ok(Some(got)) => R::same(&want, &got).map_err(|e| format!("{what}: after plugging {lin:?} into the inputs and {lout:?} into the outputs the map is wrong: {e}")),
+        Ok(None) => {
+            obs.skip("oracle-too-big");
+            Ok(())
+        }
+        Err(e) => Err(format!("{what}: result malformed: {e}")),
+    }
+}
+
+fn check_wide(c: &WideCase, obs: &mut Obs) -> Result<(), String> {
+    let exact = c.comps.iter().all(|(g, h)| {
+        let (dg, dh) = (g.to_diag(), h.to_diag());
+        dg.all_phases_quarter() && dh.all_phases_quarter() && dg.scalar.is_exact() && dh.scalar.is_exact()
+    });
+    if exact {
+        check_wide_in::<Zw, quizx::vec_graph::Graph>(c, "vec", obs)?;
+        check_wide_in::<Zw, quizx::hash_graph::Graph>(c, "hash", obs)?;
+    } else {
+        check_wide_in::<C64, quizx::vec_graph::Graph>(c, "vec", obs)?;
+    }
+    obs.classes.sort();
+    obs.classes.dedup();
+    Ok(())
+}
+
+// ------------------------------------------------------------------------------------------
 // is_identity
 
 #[derive(Clone, Debug, Serialize, Deserialize)]
@@ -477,10 +629,17 @@ pub struct IdCase {
     pub defect: u8,
     pub order: Vec<u16>,
     pub shuffle_lists: bool,
+    /// wire the defect / far Hadamard / far transposition sits on (many-wire cases)
+    #[serde(default)]
+    pub pos: u16,
+    /// 0 nothing, 1 Hadamard on wire `pos`, 2 wires `pos` and `pos+1` transposed
+    #[serde(default)]
+    pub far: u8,
 }
 
 fn check_identity_in<G: GraphLike>(c: &IdCase, name: &str, obs: &mut Obs) -> Result<(), String> {
-    let n = c.n.min(5);
+    let n = c.n.min(80);
+    let pos = if n == 0 { 0 } else { crate::gen::idx(c.pos, n) };
     let mut g = G::new();
     // create the 2n boundary vertices in a scrambled order
     let mut slots: Vec<usize> = (0..2 * n).collect();
@@ -494,13 +653,16 @@ fn check_identity_in<G: GraphLike>(c: &IdCase, name: &str, obs: &mut Obs) -> Res
     // permutation
     let mut perm: Vec<usize> = (0..n).collect();
     perm.sort_by_key(|&i| (c.perm_keys.get(i).copied().unwrap_or(0), i));
+    if c.far == 2 && pos + 1 < n {
+        perm.swap(pos, pos + 1);
+    }
     let is_id_perm = perm.iter().enumerate().all(|(i, &p)| i == p);
     let mut any_h = false;
     let mut spider_on_wire = false;
     for i in 0..n {
-        let h = c.hadamard.get(i).copied().unwrap_or(false);
+        let h = c.hadamard.get(i).copied().unwrap_or(false) || (c.far == 1 && i == pos);
         any_h |= h;
-        if c.defect == 2 && i == 0 {
+        if c.defect == 2 && i == pos {
             let s = g.add_vertex(VType::Z);
             g.add_edge_with_type(ins[i], s, EType::N);
             g.add_edge_with_type(s, outs[perm[i]], if h { EType::H } else { EType::N });
@@ -546,6 +708,8 @@ fn check_identity_in<G: GraphLike>(c: &IdCase, name: &str, obs: &mut Obs) -> Res
     g.set_outputs(outs2);
     let truth = is_id_perm && !any_h && !spider_on_wire && !extra;
     obs.class_if(truth, "true-identity");
+    obs.class_if(n >= 33, "wires>=33");
+    obs.class_if(n >= 65, "wires>=65");
     obs.class_if(!truth && any_h && is_id_perm && !extra && !spider_on_wire, "hadamard-wire");
     obs.class_if(!is_id_perm, "permutation");
     obs.class_if(extra || spider_on_wire, "structural-defect");
@@ -629,11 +793,39 @@ pub fn def(ctx: &Ctx) -> PropertyDef {
             check_plug,
         ),
         Section::random(
+            "wide-products",
+            ctx.cases(300, 6000),
+            move || {
+                let small = || {
+                    let mut p = DiagParams::general(3, 3, Palette::ExactT);
+                    p.max_wires = 1;
+                    diag_spec(p)
+                };
+                (
+                    prop::collection::vec((small(), small()), 2..=32),
+                    prop::collection::vec(prop_oneof![8 => 0u8..4, 1 => Just(4u8)], 1..=12),
+                    prop::collection::vec(prop_oneof![8 => 0u8..4, 1 => Just(4u8)], 1..=12),
+                    0u8..4,
+                    0u8..4,
+                    0u8..3,
+                )
+                    .prop_map(|(comps, ins, outs, drop_in, drop_out, mode)| WideCase {
+                        comps,
+                        ins,
+                        outs,
+                        drop_in,
+                        drop_out,
+                        mode,
+                    })
+            },
+            check_wide,
+        ),
+        Section::random(
             "is-identity",
             ctx.cases(4000, 80000),
             || {
                 (
-                    0usize..=4,
+                    prop_oneof![6 => 0usize..=4, 2 => 5usize..=40, 1 => 60usize..=72],
                     prop_oneof![
                         2 => Just(vec![]),
                         1 => prop::collection::vec(any::<u16>(), 0..=4)
@@ -645,15 +837,19 @@ pub fn def(ctx: &Ctx) -> PropertyDef {
                     prop_oneof![5 => Just(0u8), 1 => Just(1u8), 1 => Just(2u8), 1 => Just(3u8), 1 => Just(4u8)],
                     prop::collection::vec(any::<u16>(), 0..=8),
                     any::<bool>(),
+                    any::<u16>(),
+                    prop_oneof![4 => Just(0u8), 1 => Just(1u8), 1 => Just(2u8)],
                 )
                     .prop_map(
-                        |(n, perm_keys, hadamard, defect, order, shuffle_lists)| IdCase {
+                        |(n, perm_keys, hadamard, defect, order, shuffle_lists, pos, far)| IdCase {
                             n,
                             perm_keys,
                             hadamard,
                             defect,
                             order,
                             shuffle_lists,
+                            pos,
+                            far,
                         },
                     )
             },
